@@ -399,6 +399,11 @@ class LowerToIRVisitor(Visitor.DefaultVisitor):
     def v_ConstructPrimitiveExpression(self, expr, ctx):
         values = [self.v_Visit(e, ctx) for e in expr]
 
+        if expr.GetType().IsScalar() and len(values) == 1:
+            # float (x) / int (x) is a plain conversion, the implicit cast
+            # pass has already brought the argument to the target type
+            return values[0]
+
         cpi = LinearIR.ConstructPrimitiveInstruction(
             ctx.AdaptType(expr.GetType()), values
         )
